@@ -9,6 +9,7 @@ PadForms == {[GoodPad EXCEPT !.val = v, !.even = e] : v \in {<<1>>, <<1, 1>>, <<
             \cup {[GoodPad EXCEPT !.present = FALSE, !.imprintLike = i] : i \in BOOLEAN}
 
 (* which violations make sense for a structure *)
+RfcApplicable == {[c |-> x, at |-> 0] : x \in {"rfcOutput", "rfcTime", "rfcIndex", "rfcAlg", "rfcOutAlg"}}
 Applicable(nch, cal, anchor) ==
     {[c |-> "chainInput", at |-> k] : k \in 2..nch} \cup {[c |-> "chainTime", at |-> k] : k \in 2..nch}
     \cup {[c |-> "indexCont", at |-> k] : k \in 2..nch} \cup {[c |-> "indexShape", at |-> k] : k \in 1..nch}
@@ -23,11 +24,19 @@ VSets(st) == LET A == Applicable(st.nch, st.cal, st.anchor) IN
 Docs == {"absent", "equal", "digest", "alg"}
 Levels == {"none", "ok", "over", "huge"}
 
-Cases == UNION {{[nch |-> st.nch, cal |-> st.cal, anchor |-> st.anchor, pads |-> {}, viol |-> vs, doc |-> "absent", level |-> "none"] : vs \in VSets(st)} : st \in Structures}
+Plain == UNION {{[nch |-> st.nch, cal |-> st.cal, anchor |-> st.anchor, pads |-> {}, viol |-> vs, doc |-> "absent", level |-> "none"] : vs \in VSets(st)} : st \in Structures}
+(* legacy signatures: every RFC 3161 violation alone, with one ordinary violation, and under the document / level contexts *)
+LegacyViols(n, a) == {{}} \cup {{v} : v \in RfcApplicable} \cup {{v, [c |-> "calInput", at |-> 0]} : v \in RfcApplicable}
+                     \cup {{[c |-> "inputAlg", at |-> 1]}, {[c |-> "indexCont", at |-> 2]} \cap Applicable(n, TRUE, a)}
+Legacy == UNION {{[nch |-> n, cal |-> TRUE, anchor |-> a, pads |-> {}, viol |-> vs, doc |-> d, level |-> l] : d \in Docs, l \in Levels, vs \in LegacyViols(n, a)}
+                   : n \in 1..2, a \in {"pub", "auth"}}
+WithRfc(S, b) == {[nch |-> x.nch, cal |-> x.cal, anchor |-> x.anchor, pads |-> x.pads, viol |-> x.viol, doc |-> x.doc, level |-> x.level, rfc |-> b] : x \in S}
+Cases0 == Plain
          \cup {[nch |-> 1, cal |-> TRUE, anchor |-> "pub", pads |-> {p}, viol |-> {}, doc |-> "equal", level |-> "none"] : p \in PadForms}
          \cup {[nch |-> 2, cal |-> TRUE, anchor |-> "auth", pads |-> {GoodPad, p}, viol |-> {}, doc |-> "absent", level |-> "none"] : p \in PadForms}
          \cup {[nch |-> n, cal |-> TRUE, anchor |-> "pub", pads |-> {}, viol |-> vs, doc |-> d, level |-> l] :
                     n \in 1..2, d \in Docs, l \in Levels, vs \in {{}, {[c |-> "indexShape", at |-> 1]}, {[c |-> "pubHash", at |-> 0]}}}
+Cases == WithRfc(Cases0, FALSE) \cup WithRfc({x \in Legacy : x.doc = "absent" => x.level = "none"}, TRUE)
 VARIABLE c
 Init == c \in Cases
 Next == UNCHANGED c
